@@ -20,7 +20,7 @@ ASSUMPTIONS = [
     "the parallel hashing path is reached by construction (two files larger than the threshold in one directory); its use is inferred from the inputs, not from an internal hook",
 ]
 MONITORS = "oid / bytes equality across permutations and configurations; independent canonical encoder; collision map"
-REQUIRED_COUNTERS = ["digested_object_reread_after_other_digests", "late_materialisations", "flaky_read_builds", "inode_only_swaps", "get_obj_after_add_histories", "state_warmed_under_other_algorithm", "permutations_checked", "sets_exhaustively_permuted", "disk_builds", "parallel_path_builds", "shuffled_walk_builds",
+REQUIRED_COUNTERS = ["legacy_algorithm_builds_with_large_text_files", "digested_object_reread_after_other_digests", "late_materialisations", "flaky_read_builds", "inode_only_swaps", "get_obj_after_add_histories", "state_warmed_under_other_algorithm", "permutations_checked", "sets_exhaustively_permuted", "disk_builds", "parallel_path_builds", "shuffled_walk_builds",
                      "warm_state_builds", "prefix_objects_checked", "roundtrip_checks", "get_hashes_threshold_checks"]
 
 
@@ -210,6 +210,9 @@ def run_shard(ctx):
                 base = rng.choice(sorted({k[:-1] for k in files}))
                 for i in range(rng.choice([2, 3])):
                     files[(*base, f"big{i}")] = rng.randbytes(2**20 + 1 + rng.randrange(5000))
+                # large CRLF text files with a CR LF pair straddling the 1 MiB block boundary
+                for i in range(2):
+                    files[(*base, f"bigtext{i}")] = b"t" * (2**20 - 1) + b"\r\n" + (b"line %d\r\n" % i) * rng.randrange(1000, 60000)
                 res.count("parallel_path_builds")
             p = os.path.join(d, "data")
             gen.write_tree(p, files)
@@ -231,6 +234,16 @@ def run_shard(ctx):
                 legacy = env.local_odb(os.path.join(d, "legacy"), state=state, hash_name="md5-dos2unix")
                 build(legacy, p, env.localfs(), "md5-dos2unix", dry_run=True)
                 res.count("state_warmed_under_other_algorithm")
+            if big:
+                # the legacy algorithm normalises per 1 MiB block: its directory id must not depend on which hashing path a file took
+                ref_legacy = canonical_dir_oid({"/".join(k): H("md5-dos2unix", v) for k, v in files.items()})
+                for jobs_ in (1, 4):
+                    lodb = env.local_odb(os.path.join(d, f"legacy-nostate-{jobs_}"), hash_name="md5-dos2unix")
+                    _sl, _ml, lobj = build(lodb, p, env.localfs(), "md5-dos2unix", dry_run=True, checksum_jobs=jobs_)
+                    res.count("legacy_algorithm_builds_with_large_text_files")
+                    if lobj.hash_info.value != ref_legacy:
+                        res.violation("staging-config-dependent/legacy-algorithm-large-files", f"md5-dos2unix build (jobs={jobs_}) gives {lobj.hash_info.value}, per-file reference {ref_legacy}",
+                                      case=case, detail={"jobs": jobs_})
             runs.append(("trailing-separator", odb_nostate, env.localfs(), rng.choice([1, 4])))
             if big:
                 ffs = FlakyReadFS()
